@@ -581,6 +581,13 @@ func finalizeArtifactInstall(ctx context.Context, o finalizeInstallOptions) (Man
 // gate against the returned DownloadResult exactly as it would for a fresh
 // download; this function only ever decides where the BYTES come from.
 func stageArtifact(ctx context.Context, opts InstallOptions, targetDir string, artifact *index.Artifact, archivePath string) (DownloadResult, bool, error) {
+	// Refuse a malformed declared digest up front, with the same coded refusal
+	// CheckCorruption gives it later: the digest names the cache entry below,
+	// so it must be a well-formed sha256 before any path is derived from it
+	// (and there is no point fetching bytes that can never match).
+	if _, err := decodeDeclaredDigest(artifact.SHA256); err != nil {
+		return DownloadResult{}, false, err
+	}
 	digestHex := normalizeDigestHex(artifact.SHA256)
 	if digestHex != "" {
 		if cached, hit, cacheErr := CacheLookup(targetDir, digestHex); cacheErr == nil && hit {
